@@ -59,7 +59,7 @@ impl Method for SWMA {
 
 	fn new(length: Self::Params, &value: &Self::Input) -> Result<Self, Error> {
 		match length {
-			0 => Err(Error::WrongMethodParameters),
+			0 | PeriodType::MAX => Err(Error::WrongMethodParameters),
 			length => {
 				let left_length = (length + 1) / 2;
 				let right_length = length / 2;
